@@ -346,6 +346,40 @@ pub fn tree_battery<T: Sym>(rep: &mut Rep, t: &dyn DynTree<T>, m: &SeqModel, rng
         }
     }
 
+    // ---- interleaved history: operations, symbols and indices mixed, with runs of consecutive indices
+    // (what a cursor / memo inside the structure would key on), all against the model
+    if n > 0 && !m.syms.is_empty() {
+        let steps = (o.budget / 20).clamp(24, 600);
+        let mut prev: Option<(u8, u128, usize)> = None;
+        for _ in 0..steps {
+            let (kind, c, idx) = match prev {
+                // continue a run: same or other operation kind, next index, same or alternating symbol
+                Some((k, c, i)) if rng.chance(2, 3) => {
+                    let k2 = if rng.chance(1, 3) { (k + 1) % 3 } else { k };
+                    let c2 = if rng.chance(1, 4) { *rng.pick(&syms) } else { c };
+                    (k2, c2, i + 1)
+                }
+                _ => (rng.below(3) as u8, *rng.pick(&syms), rng.usize_below(n)),
+            };
+            let cs = T::from_u128(c);
+            match kind {
+                0 => {
+                    let i = idx.min(n + 1);
+                    chk!(rep, "rank[interleaved]", (c, i), rank_expectation(t.kind(), m, c, i), t.rank_(cs, i));
+                }
+                1 => {
+                    chk!(rep, "select[interleaved]", (c, idx), Exp::Is(m.select(c, idx)), t.select_(cs, idx));
+                }
+                _ => {
+                    let i = idx % (n + 1);
+                    let exp = if i < n { Some(T::from_u128(m.seq[i])) } else { None };
+                    chk!(rep, "get[interleaved]", i, Exp::Is(exp), t.get_(i));
+                }
+            }
+            prev = Some((kind, c, idx));
+        }
+    }
+
     // ---- iterators (whole-sequence comparison)
     if o.iter && n <= o.budget.max(64) {
         let want: Vec<T> = m.seq.iter().map(|&x| T::from_u128(x)).collect();
